@@ -19,15 +19,6 @@ import (
 // function producing it.
 func (c *Ctx) chanKey(v ssa.Value) string {
 	v = ir.Strip(v)
-	// a channel kept in a field of a struct the function allocates itself and
-	// never hands out: the channel that was stored there
-	if in, ok := v.(ssa.Instruction); ok && in.Block() != nil {
-		if w := ir.ValueAt(v, in.Block()); w != v {
-			if _, isMk := ir.Strip(w).(*ssa.MakeChan); isMk {
-				v = ir.Strip(w)
-			}
-		}
-	}
 	switch x := v.(type) {
 	case *ssa.UnOp:
 		if x.Op == token.MUL {
@@ -620,6 +611,9 @@ var countedElsewhere = map[string]string{
 	"(*query.peerWorkManager).workDispatcher|field:batchProgress.errChan": "C12.X1 (a verdict exactly when the batch is deleted)",
 }
 
+// fieldStoresCache: per program, every store instruction by the field it writes.
+var fieldStoresCache = map[*ir.Program]map[*types.Var][]*ssa.Store{}
+
 // builtHereOnce: fa addresses field f of a struct that fa's function allocates
 // itself (possibly behind result variables whose other values are nil), f is
 // stored exactly once in the whole module - there - and with a channel made
@@ -659,26 +653,33 @@ func (c *Ctx) builtHereOnce(fa *ssa.FieldAddr, f *types.Var) *ssa.MakeChan {
 	if !find(fa.X) || alloc == nil || alloc.Parent() != fa.Parent() {
 		return nil
 	}
-	// module-wide stores of the field
-	n := 0
-	var val ssa.Value
-	for _, fn := range c.P.Funcs {
-		ir.Instrs(fn, func(in ssa.Instruction) {
-			st, ok := in.(*ssa.Store)
-			if !ok {
-				return
-			}
-			a, ok := st.Addr.(*ssa.FieldAddr)
-			if !ok || ir.FieldOfAddr(a) != f {
-				return
-			}
-			n++
-			if a.X == ssa.Value(alloc) {
-				val = st.Val
-			}
-		})
+	// module-wide stores of the field (one scan of the module, kept)
+	if fieldStoresCache[c.P] == nil {
+		m := map[*types.Var][]*ssa.Store{}
+		for _, fn := range c.P.Funcs {
+			ir.Instrs(fn, func(in ssa.Instruction) {
+				st, ok := in.(*ssa.Store)
+				if !ok {
+					return
+				}
+				if a, ok := st.Addr.(*ssa.FieldAddr); ok {
+					if fv := ir.FieldOfAddr(a); fv != nil {
+						m[fv] = append(m[fv], st)
+					}
+				}
+			})
+		}
+		fieldStoresCache[c.P] = m
 	}
-	if n != 1 || val == nil {
+	sts := fieldStoresCache[c.P][f]
+	if len(sts) != 1 {
+		return nil
+	}
+	var val ssa.Value
+	if a := sts[0].Addr.(*ssa.FieldAddr); a.X == ssa.Value(alloc) {
+		val = sts[0].Val
+	}
+	if val == nil {
 		return nil
 	}
 	mk, _ := ir.Strip(val).(*ssa.MakeChan)
